@@ -1,12 +1,31 @@
-"""C09  (shared soup driver)
+"""C09  Every tract is well-formed and traceable to its source.
 
-spec/PlssDesc.tla       token-level input space (every token sequence x configuration)
-spec/ObsInvariants.tla  Returned / AtLeastOneTract
-spec/PlssDescTrace.tla  verdicts
+spec/TrsForm.tla        the standard form (shared with C12)
+spec/ObsInvariants.tla  ClauseC09: standard-or-error TRS without 'undefined', attributes = decomposition,
+                        orig_desc / source / orig_index
+spec/PlssDesc.tla       token-level input space
 """
-from .. import core, plsssoup
+from .. import core, plsssoup, soup
 
 PROP = "C09"
+
+
+def soup_cases(ctx, n):
+    cases = []
+    for i in range(n):
+        args = {"text": soup.rand_text(ctx.rng), "config": soup.rand_config(ctx.rng), "source": "SRC-%d" % (i % 5)}
+        if ctx.rng.random() < 0.3:
+            args["kw"] = {"parse_qq": True}
+        cases.append({"id": "s%d" % i, "kind": "plss", "origin": "soup", "abs": {}, "args": args})
+    # section lists with repeated numbers, large numbers, many sections
+    for i, t in enumerate(["T154N-R97W Sections 14, 15 and 14: NE/4", "T154N-R97W Secs 1 - 3 and 3 - 5: W/2",
+                           "T154N-R97W Sec 100: NE/4", "T154N-R97W Sec 0: NE/4", "T154N-R97W Sec 36 - 34: NE/4",
+                           "NE/4 of Sec 7 and 7, T1N-R1E", "T999N-R999W Sec 99: ALL", "T1000N-R97W Sec 1: ALL",
+                           "Sec 5: N/2, Sec 5: S/2, T154N-R97W", "T154N-R97W Sec 14: NE/4, T155N-R97W Sec 14: NE/4"]):
+        for cfg in (None, "segment", "sec_within", "copy_all", "TR_desc_S"):
+            cases.append({"id": "f%d%s" % (i, cfg or "d"), "kind": "plss", "origin": "fixed", "abs": {},
+                          "args": {"text": t, "config": cfg, "source": "SRC-9"}})
+    return cases
 
 
 def run(ctx):
@@ -14,7 +33,12 @@ def run(ctx):
     cases = plsssoup.model_cases(ctx, 4 if thorough else 3, plsssoup.ALL_CONFIGS, keep=0.5 if thorough else 1.0)
     ctx.exhaustive = not thorough
     plsssoup.judge(ctx, PROP, cases)
-    ctx.rule = "token sequences x configurations of spec/PlssDesc.tla"
+    plsssoup.judge(ctx, PROP, soup_cases(ctx, 40000 if thorough else 5000))
+    ctx.rule = ("every tract of (a) every admissible token sequence of spec/PlssDesc.tla up to %d tokens x 15 configurations, "
+                "(b) seeded soup / truncated / shuffled texts x random configurations, (c) fixed texts with repeated, "
+                "descending and out-of-range section numbers x 5 configurations; non-trivial = distinct (text, configuration)"
+                % (4 if thorough else 3))
+    ctx.assumptions += ["tract attributes are read through the public properties (twp, twp_num, ...)"]
 
 
 def replay(ctx, payload):
